@@ -11,6 +11,7 @@ struct Req {
     reply: Option<(usize, CtlReply)>,
     source: Src,
     vt_invoke: u64,
+    abandoned: bool,
 }
 
 pub fn monitor(out: &RunOut) -> MonOut {
@@ -29,7 +30,13 @@ pub fn monitor(out: &RunOut) -> MonOut {
             match &h[i].kind {
                 Kind::CtlInvoke { client, req, source } => {
                     open.insert((*client, *req), reqs.len());
-                    reqs.push(Req { invoke: i, reply: None, source: *source, vt_invoke: h[i].vt });
+                    reqs.push(Req { invoke: i, reply: None, source: *source, vt_invoke: h[i].vt, abandoned: false });
+                }
+                Kind::CtlAbandon { client, req } => {
+                    // no reply can be observed for it; the machine may still receive and act on it
+                    if let Some(k) = open.get(&(*client, *req)) {
+                        reqs[*k].abandoned = true;
+                    }
                 }
                 Kind::CtlReply { client, req, reply } => {
                     if let Some(k) = open.remove(&(*client, *req)) {
@@ -67,6 +74,9 @@ pub fn monitor(out: &RunOut) -> MonOut {
             let site = format!("L{}@{}", l.life, r.invoke);
             m.count("R1.requests");
             match &r.reply {
+                None if r.abandoned => {
+                    m.count("R1.abandoned_by_the_caller");
+                }
                 None => {
                     // R1: a request must not be left hanging once nothing else can happen
                     if l.end_why == "stuck" {
